@@ -795,7 +795,14 @@ def validation_oracle():
             'nan-frame': pd.DataFrame({'a': [1.0, np.nan, 3.0], 'b': [1.0, 2.0, 3.0], 'c': [2.0, 1.0, 0.0]}),
             'nan-array': np.array([[1.0, 2.0, 3.0], [np.nan, 1.0, 0.0], [0.5, 0.2, 0.1]]),
             'none-frame': pd.DataFrame({'a': [1.0, None, 3.0], 'b': [1.0, 2.0, 3.0]}),
-            'all-nan-frame': pd.DataFrame({'a': [np.nan, np.nan], 'b': [np.nan, np.nan]})}
+            'all-nan-frame': pd.DataFrame({'a': [np.nan, np.nan], 'b': [np.nan, np.nan]}),
+            # NaN in every representation that can hold one (round 4: a dtype-equality guard skipped float32 / float16)
+            'nan-float32-frame': pd.DataFrame({'a': [1.0, np.nan, 3.0, 2.0], 'b': [1.0, 2.0, 3.0, 0.5], 'c': [2.0, 1.0, 0.0, 4.0]}).astype(np.float32),
+            'nan-float16-array': np.array([[1.0, 2.0, 3.0], [np.nan, 1.0, 0.0], [0.5, 0.2, 0.1], [4.0, 2.5, 1.5]], dtype=np.float16),
+            'nan-float32-array': np.array([[1.0, 2.0, 3.0], [0.25, 1.0, np.nan], [0.5, 0.2, 0.1], [4.0, 2.5, 1.5]], dtype=np.float32),
+            'nan-fortran-array': np.asfortranarray(np.array([[1.0, 2.0, 3.0], [0.25, np.nan, 0.0], [0.5, 0.2, 0.1], [4.0, 2.5, 1.5]])),
+            'nan-last-cell-frame': pd.DataFrame({'a': [1.0, 2.0, 3.0, 4.0], 'b': [1.0, 2.0, 3.0, np.nan]}),
+            'nan-longdouble-array': np.array([[1.0, 2.0], [np.nan, 1.0], [0.5, 0.2]], dtype=np.longdouble)}
     makers = {'GaussianMultivariate': GaussianMultivariate,
               'GaussianMultivariate(GaussianUnivariate)': lambda: GaussianMultivariate(distribution=GaussianUnivariate),
               'VineCopula(center)': lambda: VineCopula('center'), 'VineCopula(direct)': lambda: VineCopula('direct'),
